@@ -255,6 +255,14 @@ func genC08Case(t *rapid.T) SSOCase {
 			e.ACS = []world.ACSSpec{acs(world.BindPost, "https://earlier.example/acs/post", "0", A), acs(world.BindRedirect, "https://earlier.example/acs/redirect", "1", A)}
 		}, true)
 	}
+	if c.Hist == nil && rapid.IntRange(0, 5).Draw(t, "brokenbefore") == 0 {
+		// earlier replies (pages for the POST binding among them) broke while they were written
+		c.Hist = &History{SP: c.SP, Warmups: []string{"sso-refused", "logout", "sso-refused"}, BrokenAfter: rapid.SampledFrom([]int{1, 64, 300, 700, 1500}).Draw(t, "brokenafter"), WarmupByOther: rapid.Bool().Draw(t, "broken-other")}
+	}
+	if c.Hist == nil && rapid.IntRange(0, 4).Draw(t, "sameid") == 0 && c.Req.ID != A && c.Req.ID != "" {
+		// the same request ID was used shortly before, by this provider or by another one
+		c.Hist = &History{SP: c.SP, Warmups: []string{"sso"}, ReuseID: c.Req.ID, WarmupByOther: rapid.Bool().Draw(t, "sameid-other")}
+	}
 	return c
 }
 
